@@ -425,12 +425,28 @@ class MultipartUploader:
                     filename, '/'.join([bucket, key]), e
                 )
             )
-        self._client.complete_multipart_upload(
-            Bucket=bucket,
-            Key=key,
-            UploadId=upload_id,
-            MultipartUpload={'Parts': parts},
-        )
+        try:
+            self._client.complete_multipart_upload(
+                Bucket=bucket,
+                Key=key,
+                UploadId=upload_id,
+                MultipartUpload={'Parts': parts},
+            )
+        except Exception:
+            logger.debug(
+                "Exception raised while completing the multipart upload, "
+                "aborting it.",
+                exc_info=True,
+            )
+            try:
+                self._client.abort_multipart_upload(
+                    Bucket=bucket, Key=key, UploadId=upload_id
+                )
+            except Exception:
+                logger.debug(
+                    "Unable to abort the multipart upload.", exc_info=True
+                )
+            raise
 
     def _upload_parts(
         self, upload_id, filename, bucket, key, callback, extra_args
